@@ -65,14 +65,15 @@ class Prop(BaseProp):
             "(exhaustive position x kind per base module; thorough adds fault pairs and a backslash at EOF); each "
             "mutant is re-classified by the reference lexer and only INVALID mutants are asserted: cminx.main must "
             "raise / exit non-zero and leave no .rst for that file (single-file -o, as one file of a directory run "
-            "with -r -o, and stdout mode); parse-time classes are cross-checked against `cmake -P` on a sample and a "
+            "with -r -o placed in the top / first / last directory, stdout mode, and as the second revision of a file "
+            "whose valid first revision was documented into the same output directory, with an older time stamp); parse-time classes are cross-checked against `cmake -P` on a sample and a "
             "sample goes through the real CLI. Distinct = (fault kind, reference reason, token kind at the position); "
             "non-trivial = INVALID mutant")
     ASSUMPTIONS = ["faults inside comments are outside the property", "mutants the reference lexer calls VALID or LEGACY are "
                    "skipped and counted", "error message text is not asserted",
                    "what happens to the other files of a directory run is not asserted"]
     HEADLINE = ["mutants_generated", "mutants_invalid_asserted", "mutants_valid_skipped", "rejected_as_required",
-                "cmake_crosschecks", "cli_runs", "directory_mode_runs", "stdout_mode_runs", "runs_via_cminx_main"]
+                "cmake_crosschecks", "cli_runs", "directory_mode_runs", "stdout_mode_runs", "runs_via_cminx_main", "rerun_mode_runs"]
 
     NMOD = {"quick": 4, "thorough": 40}
 
@@ -123,8 +124,8 @@ class Prop(BaseProp):
         shutil.rmtree(out, ignore_errors=True)
         if mode == "single":
             src = os.path.join(sb, name)
-            with open(src, "w", encoding="utf-8", newline="") as f:
-                f.write(text)
+            with open(src, "wb") as f:
+                f.write(text if isinstance(text, bytes) else text.encode("utf-8"))
             o = self.call([src, "-o", out], sb, home, via_main)
             page = os.path.join(out, "faulty.rst")
         elif mode == "dir":
@@ -141,21 +142,36 @@ class Prop(BaseProp):
                 with open(os.path.join(d, sub, "zclean.cmake"), "w") as f:
                     f.write("function(ok2)\nendfunction()\n")
             src = os.path.join(d, where, name)
-            with open(src, "w", encoding="utf-8", newline="") as f:
-                f.write(text)
+            with open(src, "wb") as f:
+                f.write(text if isinstance(text, bytes) else text.encode("utf-8"))
             o = self.call([d, "-r", "-o", out], sb, home, via_main)
             page = os.path.join(out, where, "faulty.rst")
             res.see("faulty_file_location_in_directory_runs", where or "top")
             res.count("directory_mode_runs")
-        else:
+        elif mode == "rerun":
+            # history: a valid revision was documented into the same output directory before; the faulty revision is not
+            # newer than the page written then (cp -p, restored backup)
             src = os.path.join(sb, name)
             with open(src, "w", encoding="utf-8", newline="") as f:
-                f.write(text)
+                f.write("function(valid_revision)\nendfunction()\n")
+            o1 = self.call([src, "-o", out], sb, home, via_main)
+            page = os.path.join(out, "faulty.rst")
+            before = open(page).read() if os.path.exists(page) else None
+            with open(src, "wb") as f:
+                f.write(text if isinstance(text, bytes) else text.encode("utf-8"))
+            os.utime(src, (1_000_000_000, 1_000_000_000))
+            o = self.call([src, "-o", out], sb, home, via_main)
+            res.count("rerun_mode_runs")
+            page = None       # the page of the earlier, valid revision legitimately exists
+        else:
+            src = os.path.join(sb, name)
+            with open(src, "wb") as f:
+                f.write(text if isinstance(text, bytes) else text.encode("utf-8"))
             o = self.call([src], sb, home, via_main)
             page = None
             res.count("stdout_mode_runs")
         failed = (o.exc is not None) or (o.exit_code not in (None, 0))
-        wit = dict(wit_extra, mode=mode, text=text, outcome=("exception " + type(o.exc).__name__) if o.exc else f"exit {o.exit_code}" if not o.ok else "returned normally")
+        wit = dict(wit_extra, mode=mode, text=text if isinstance(text, str) else text.decode("latin-1"), outcome=("exception " + type(o.exc).__name__) if o.exc else f"exit {o.exit_code}" if not o.ok else "returned normally")
         bad = False
         if not failed:
             res.violate(f"accepted-invalid-input:{reason}:{kind}:{mode}", "cminx.main returned normally on an invalid file", wit)
@@ -200,8 +216,21 @@ class Prop(BaseProp):
                     p2 = rng.choice(p2s)
                     kd2, t2 = rng.choice(mutants_at(t1, p2, r1))
                     muts.append((p1, f"pair({kd1}+{kd2})", t2))
+            if idx < len(self._plan):
+                for p in pos:
+                    if (p == 0 or text[p - 1] == "\n") and not any(c.start < p < (c.end or 0) for c in ref.commands):
+                        for junk in (b"\xe9\xe8\xe9\n", b"\xe9\xe8 caf\xe9\n", b"\xff\xfe\n"):
+                            muts.append((p, "stray-undecodable-bytes", text[:p].encode("utf-8") + junk + text[p:].encode("utf-8")))
             for n, (p, kind, mt) in enumerate(muts):
                 res.count("mutants_generated")
+                if isinstance(mt, bytes):
+                    # a line of bytes that are not UTF-8 between two commands: stray text for CMake, undecodable for CMinx
+                    res.count("mutants_invalid_asserted")
+                    res.see("fault_kinds", kind)
+                    sigs.add((kind, "stray-text"))
+                    wx = {"fault": kind, "position": p, "reference_reason": "stray-text(bytes)", "base_module": j}
+                    self.attempt(res, sb, mt, kind, "stray-text", wx, idx, ["single", "dir", "stdout", "rerun"][n % 4])
+                    continue
                 mref = cmake_lexer.lex(mt)
                 if mref.valid:
                     res.count("mutants_valid_skipped" if not mref.legacy else "mutants_legacy_skipped")
@@ -230,6 +259,8 @@ class Prop(BaseProp):
                     self.attempt(res, sb, mt, kbase, reason, wx, idx, "dir", via_main=vm)
                 if n % 5 == 1:
                     self.attempt(res, sb, mt, kbase, reason, wx, idx, "stdout", via_main=vm)
+                if n % 5 == 2:
+                    self.attempt(res, sb, mt, kbase, reason, wx, idx, "rerun", via_main=vm)
                 if reason in PARSE_TIME and (n + idx) % 40 == 0:
                     src = os.path.join(sb, "x.cmake")
                     with open(src, "w", encoding="utf-8", newline="") as f:
